@@ -710,6 +710,8 @@ impl Interface {
         enum EgressError {
             Exhausted,
             Dispatch,
+            #[cfg(feature = "proto-ipv4-fragmentation")]
+            FragmenterBusy,
         }
 
         let mut result = PollResult::None;
@@ -724,6 +726,17 @@ impl Interface {
             let mut neighbor_addr = None;
             let mut respond = |inner: &mut InterfaceInner, meta: PacketMeta, response: Packet| {
                 neighbor_addr = Some(response.ip_repr().dst_addr());
+
+                // The fragmenter holds a single packet. While fragments of a previous packet
+                // are still unsent, a packet that needs fragmentation stays in its socket.
+                #[cfg(feature = "proto-ipv4-fragmentation")]
+                if matches!(response.ip_repr(), IpRepr::Ipv4(_))
+                    && response.ip_repr().buffer_len() > inner.caps.ip_mtu()
+                    && !self.fragmenter.finished()
+                {
+                    return Err(EgressError::FragmenterBusy);
+                }
+
                 let t = device.transmit(inner.now).ok_or_else(|| {
                     net_debug!("failed to transmit IP: device exhausted");
                     EgressError::Exhausted
@@ -812,6 +825,9 @@ impl Interface {
                         neighbor_addr.expect("non-IP response packet"),
                     );
                 }
+                // Retried once the last fragment of the previous packet is sent.
+                #[cfg(feature = "proto-ipv4-fragmentation")]
+                Err(EgressError::FragmenterBusy) => {}
                 Ok(()) => {}
             }
         }
@@ -1298,6 +1314,13 @@ impl InterfaceInner {
                                 "Fragmentation buffer is too small, at least {} needed. Dropping",
                                 total_ip_len
                             );
+                            return Ok(());
+                        }
+
+                        // Starting a new packet while fragments of the previous one are still
+                        // unsent would overwrite them (sockets are held back in `socket_egress`).
+                        if !frag.finished() {
+                            net_debug!("Fragmenter is busy with a previous packet. Dropping");
                             return Ok(());
                         }
 
